@@ -15,6 +15,8 @@ CHECKS = {
          "layouts concrete, characters symbolic (as C02); as C01 for the layered part", "6/C13", None),
  "C16": ("model_checking", "Reader harness decides every combination of file owner/group/kind with every combination of active restrictions, required ids and reset; layered-read harness shows every entry point aborts with the restriction's code on the refused file and hands back no content.",
          "kernel ownership/symlink semantics modelled by lstat attributes", "6/C16", None),
+ "C17": ("model_checking", "For each enumerated layout the stored and the extended metadata of every key equal the spans of the generated file: absolute path (also for a relative name), line on which the entry ends, preceding comment lines, trailing comment, blank-trimmed value lines; all field characters symbolic.",
+         "layouts concrete per instance; realpath model for relative names (real realpath in the native replay)", "5.1, 6/C17", None),
  "C20": ("model_checking", "CBMC's leak, double-free, use-after-free and invalid-free checks on every early-return path of the six entry points (failure of each kind injected at a chosen consulted file), on the reader's failure paths and on API operation steps; out-pointers NULL / untouched / valid.",
          "leak tracking is CBMC's (one nondeterministically chosen allocation per run = all allocations); allocation failure out of scope", "6/C20", None),
  "C03": ("model_checking", "For every pair of entry lists within the length bound (all section interleavings incl. re-opened sections, duplicates, empty sides, constructor-made empty objects; keys symbolic) the merge result satisfies each clause of the statement and every array write stays inside base+override entries.",
@@ -25,6 +27,8 @@ CHECKS = {
          "the invariant (entries + owned section list + pre-initialised tail) is the trusted inductive hypothesis; universe of 4 sections x 3 keys", "6/C11", None),
  "C04": ("model_checking", "Every CBMC memory-safety/overflow obligation in the parser and the follow-up API calls is discharged for all byte strings within the bound (all 256 byte values, every delimiter class, comment set and option); not a proof beyond the bound.",
          "bounds: file length/lines per instance (see evidence); libc/stdio models in env/; capacity model of strdup/realloc; allocation failure out of scope", "6/C04", None),
+ "C05": ("model_checking", "For each enumerated layout containing comment lines (with and without indentation, before/after/between entries and section headers, blocks) the parse result equals the expectation that ignores comment lines, for every comment text over all byte values except NL/NUL (further comment characters, delimiters, quotes, brackets) - decided symbolically.",
+         "layouts concrete (fixed core + VERIF_SEED sample), <= 3-4 lines; in two of three instances the non-comment fields are representative literals", "5.1, 6/C05", None),
  "C06": ("model_checking", "Reader harness: for every owner/group/link/restriction/callback-verdict combination the callback is consulted exactly once, after the restriction checks and before the file is opened, with the path and data pointer given. Layered-read harness: through each callback entry point the callback sees exactly the consulted sequence in order and one rejection (main file, k-th or masked drop-in) yields the callback-failed code and no content or history.",
          "as C01; position of the rejected file concrete per instance", "6/C06", None),
  "C08": ("model_checking", "For every value of each numeric type (all bit patterns) and every case variant of the boolean words the set/get pair is exact; decided symbolically, not sampled.",
